@@ -24,6 +24,8 @@ struct Item {
     /// items referenced, each with the syntactic form used
     refs: Vec<(usize, u8)>,
     uses_context: bool,
+    /// how the context variable is mentioned (plain, method receiver, f-string, argument, comparison)
+    ctx_form: u8,
 }
 
 struct Graph {
@@ -49,7 +51,7 @@ fn decode(ctl: &[u8]) -> Graph {
     let n = n_consts + n_fns;
     let mut items: Vec<Item> = Vec::new();
     for i in 0..n {
-        items.push(Item { is_const: i < n_consts, module: c.below(n_modules), refs: vec![], uses_context: false });
+        items.push(Item { is_const: i < n_consts, module: c.below(n_modules), refs: vec![], uses_context: false, ctx_form: 0 });
     }
     // a hidden rank makes most graphs acyclic; a few extra edges ignore it
     let mut rank: Vec<usize> = (0..n).collect();
@@ -71,6 +73,7 @@ fn decode(ctl: &[u8]) -> Graph {
     if c.chance(25) {
         let k = c.below(n);
         items[k].uses_context = true;
+        items[k].ctx_form = c.below(5) as u8;
     }
     let mut order: Vec<usize> = (0..n).collect();
     for i in 0..n.saturating_sub(1) {
@@ -82,7 +85,9 @@ fn decode(ctl: &[u8]) -> Graph {
 
 fn reference(g: &Graph, from: usize, to: usize, imports: &mut BTreeSet<String>, c_form: u8) -> String {
     let n = name(g, to);
-    let call = if g.items[to].is_const { n.clone() } else { format!("{n}()") };
+    // functions carry fuel, so that functions calling each other in a cycle terminate
+    let fuel = if g.items[from].is_const { "2" } else { "d - 1" };
+    let call = if g.items[to].is_const { n.clone() } else { format!("{n}({fuel})") };
     let same = g.items[from].module == g.items[to].module;
     if same {
         return call;
@@ -130,7 +135,16 @@ fn render(g: &Graph) -> Vec<(String, String)> {
             }
         }
         if it.uses_context {
-            terms.push("cx".into());
+            terms.push(
+                match it.ctx_form {
+                    0 => "cx",
+                    1 => "(if cx.to_string() == \"7\" { 7 } else { 7 })",
+                    2 => "(if f\"{cx}\" == \"\" { 7 } else { 7 })",
+                    3 => "(idf(cx) - cx + 7)",
+                    _ => "(if cx > 100 { 7 } else { 7 })",
+                }
+                .into(),
+            );
         }
         let sum = if terms.is_empty() { "0".to_string() } else { terms.join(" + ") };
         let f = &mut files[m];
@@ -142,7 +156,8 @@ fn render(g: &Graph) -> Vec<(String, String)> {
             }
             let _ = writeln!(f, "fn read_{}() -> i32 {{ {} }}", name(g, i), name(g, i));
         } else {
-            let _ = writeln!(f, "fn {}() -> i32 {{ {} {} + {} }}", name(g, i), pre.join(" "), 1000 * (i + 1), sum);
+            let _ = writeln!(f, "fn {}(d: i32) -> i32 {{ if d <= 0 {{ return {}; }} {} {} + {} }}", name(g, i), 1000 * (i + 1), pre.join(" "), 1000 * (i + 1), sum);
+            let _ = writeln!(f, "fn call_{}() -> i32 {{ {}(2) }}", name(g, i), name(g, i));
         }
     }
     let mut out = Vec::new();
@@ -194,31 +209,47 @@ fn model(g: &Graph) -> Expect {
             }
         }
     }
-    // functions that call each other in a cycle without any constant would not terminate at run time:
-    // such graphs are outside the property's domain (generated functions here have no fuel)
+    // values: constants once; functions by remaining fuel
+    fn fval(g: &Graph, i: usize, d: i32, consts: &BTreeMap<usize, i64>) -> i64 {
+        let base = 1000 * (i + 1) as i64;
+        if d <= 0 {
+            return base;
+        }
+        let mut v = base + if g.items[i].uses_context { 7 } else { 0 };
+        for (j, _) in &g.items[i].refs {
+            let r = if g.items[*j].is_const { consts[j] } else { fval(g, *j, d - 1, consts) };
+            v = (v + r) as i32 as i64;
+        }
+        v
+    }
+    fn cval(g: &Graph, i: usize, consts: &mut BTreeMap<usize, i64>) -> i64 {
+        if let Some(v) = consts.get(&i) {
+            return *v;
+        }
+        // constants reachable from this one (also through functions) first: the graph is acyclic for constants
+        for j in reach(g, i) {
+            if g.items[j].is_const {
+                cval(g, j, consts);
+            }
+        }
+        let mut v = (i + 1) as i64;
+        for (j, _) in &g.items[i].refs {
+            let r = if g.items[*j].is_const { consts[j] } else { fval(g, *j, 2, consts) };
+            v = (v + r) as i32 as i64;
+        }
+        consts.insert(i, v);
+        v
+    }
+    let mut consts: BTreeMap<usize, i64> = BTreeMap::new();
     for i in 0..n {
-        if !g.items[i].is_const && reach(g, i).contains(&i) {
-            return Expect::Reject("function-only-cycle".into());
+        if g.items[i].is_const {
+            cval(g, i, &mut consts);
         }
     }
     let mut vals: BTreeMap<usize, i64> = BTreeMap::new();
-    fn value(g: &Graph, i: usize, vals: &mut BTreeMap<usize, i64>) -> i64 {
-        if let Some(v) = vals.get(&i) {
-            return *v;
-        }
-        let base = if g.items[i].is_const { (i + 1) as i64 } else { 1000 * (i + 1) as i64 };
-        let mut v = base + if g.items[i].uses_context { 7 } else { 0 };
-        for (j, form) in &g.items[i].refs {
-            let r = value(g, *j, vals);
-            // form 4 references the item twice (once in the f-string, once in the sum): value counted once
-            let _ = form;
-            v = (v + r) as i32 as i64;
-        }
-        vals.insert(i, v);
-        v
-    }
     for i in 0..n {
-        value(g, i, &mut vals);
+        let v = if g.items[i].is_const { consts[&i] } else { fval(g, i, 2, &consts) };
+        vals.insert(i, v);
     }
     Expect::Accept(vals)
 }
@@ -245,11 +276,6 @@ impl WorkerState for W {
         let files = render(&g);
         let text: String = files.iter().map(|(n, t)| format!("=== {n}.roto ===\n{t}")).collect();
         let expect = model(&g);
-        if let Expect::Reject(r) = &expect {
-            if r == "function-only-cycle" {
-                return Outcome::discard("functions recursing without a constant in the cycle (no fuel): outside the domain");
-            }
-        }
         let uses_ctx = g.items.iter().any(|i| i.uses_context);
         host::reset(vec![]);
         // compile; the log collected here is what ran *during* compilation
@@ -313,7 +339,7 @@ impl WorkerState for W {
                         }
                         // values, and no re-evaluation on use
                         for i in 0..g.items.len() {
-                            let fname = if g.items[i].is_const { format!("read_{}", name(&g, i)) } else { name(&g, i) };
+                            let fname = if g.items[i].is_const { format!("read_{}", name(&g, i)) } else { format!("call_{}", name(&g, i)) };
                             let full = if g.items[i].module == 0 { fname.clone() } else { format!("m{}.{}", g.items[i].module, fname) };
                             let f = match pkg.get_function::<fn() -> i32>(&full) {
                                 Ok(f) => f,
@@ -327,6 +353,10 @@ impl WorkerState for W {
                         let later = host::take_log();
                         if !later.is_empty() {
                             return fail("re-evaluated", format!("constant initialisers ran again after compilation: {} events", later.len()));
+                        }
+                        let fn_cycle = (0..g.items.len()).any(|i| !g.items[i].is_const && reach(&g, i).contains(&i));
+                        if fn_cycle {
+                            o.classes.push("functions-in-a-cycle".into());
                         }
                         let through_fn = (0..g.items.len()).any(|i| g.items[i].is_const && g.items[i].refs.iter().any(|(j, _)| !g.items[*j].is_const));
                         let cross_mod = (0..g.items.len()).any(|i| g.items[i].refs.iter().any(|(j, _)| g.items[*j].module != g.items[i].module));
@@ -365,7 +395,7 @@ impl Prop for C14P {
         "C14"
     }
     fn rule(&self) -> String {
-        "random reference graphs over 2-8 constants and 0-5 functions (mostly acyclic by a hidden rank, a few edges ignore it; sometimes one item reads a context variable), references placed as operand, call argument, block-local, match arm, f-string, if-condition or parenthesised term, spread over 1-3 modules (absolute path, import, relative / super path) in random declaration order; every constant initialiser logs a unique tag through e(k). Oracle: if a constant reaches itself or (transitively) reads the context, compile fails with a type error and no tag was logged; otherwise compile succeeds, each tag was logged exactly once during compilation, every constant's dependencies (closed through functions) were logged before it, every constant and function returns the model's value and reading them logs nothing. Non-trivial: >= 3 constants with a dependency through a function or a module boundary, or an injected cycle/context use; distinct by file contents".into()
+        "random reference graphs over 2-8 constants and 0-5 functions (mostly acyclic by a hidden rank, a few edges ignore it; sometimes one item mentions a context variable: plainly, as a method receiver, in an f-string, as an argument or in a comparison; functions carry a fuel parameter so that functions calling each other in cycles are part of the domain), references placed as operand, call argument, block-local, match arm, f-string, if-condition or parenthesised term, spread over 1-3 modules (absolute path, import, relative / super path) in random declaration order; every constant initialiser logs a unique tag through e(k). Oracle: if a constant reaches itself or (transitively) reads the context, compile fails with a type error and no tag was logged; otherwise compile succeeds, each tag was logged exactly once during compilation, every constant's dependencies (closed through functions) were logged before it, every constant and function returns the model's value and reading them logs nothing. Non-trivial: >= 3 constants with a dependency through a function or a module boundary, or an injected cycle/context use; distinct by file contents".into()
     }
     fn assumptions(&self) -> Vec<String> {
         vec![
